@@ -18,7 +18,12 @@ def main():
         print("this replay records a model-checking counter-example of configuration %s:\n%s" % (case["model_check"], case.get("counterexample", "")))
         print("re-run `./check %s` to re-check the model" % prop)
         return 1
-    if "mode" in case and "tokens" in case:
+    if "hist" in case and "sig" in case and "objs" not in case:
+        # an operator-level behaviour (TLC's DenseOnMC) replayed on the real operator class
+        import oprec
+        out = oprec.run_op_cases([{k: case[k] for k in ("kind", "a", "b", "sig", "hist")}])
+        module = "TraceOp"
+    elif "mode" in case and "tokens" in case:
         fresh = dict(case)
         for k in ("outcome", "evalOut", "implAst", "ret", "msg", "evalMsg"):
             fresh.pop(k, None)
@@ -33,7 +38,11 @@ def main():
             module = "TraceCt"
     vs, _, _ = core.validate("replay", out, module=module)
     c, v = out[0], vs[0]
-    if "events" in c:
+    if module == "TraceOp":
+        print("operator: %s[%s,%s]  signal: %s" % (c["kind"], c["a"], c["b"], c["sig"]))
+        for i, e in enumerate(c["events"]):
+            print("%3d  update(%s) -> %s %s   memory: %s" % (i + 1, e["batch"], e["ret"], e["exc"], e["prev"]))
+    elif "events" in c:
         for i, e in enumerate(c["events"]):
             print("%3d  obj %s  %-9s %s" % (i + 1, e.get("o"), e.get("a"), json.dumps({k: e[k] for k in e if k not in ("o", "a")})[:300]))
         for o in c["objs"]:
